@@ -420,7 +420,7 @@ def eval_mask(case, budget=2.5e6):
 
     # ---- weight range -----------------------------------------------------------------------
     if not (np.all(np.isfinite(W)) and W.min() >= -1e-12 and W.max() <= 1 + 1e-12):
-        bad(f'weights/out-of-[0,1]-{method}', f'min={W.min()!r} max={W.max()!r}')
+        bad(f'weights/out-of-[0,1]-{method}', f'min={float(np.nanmin(W)) if np.any(np.isfinite(W)) else float("nan")!r} max={float(np.nanmax(W)) if np.any(np.isfinite(W)) else float("nan")!r} n_nan={int(np.isnan(W).sum())}')
 
     # ---- per-pixel oracle -------------------------------------------------------------------
     rect = sp['kind'] in ('rect', 'rann')
@@ -434,7 +434,7 @@ def eval_mask(case, budget=2.5e6):
         j = int(np.argmax(d))
         if not d[j] <= tol:
             bad('exact/pixel-weight-vs-analytic-overlap',
-                f'pixel (x={int(gx[j])}, y={int(gy[j])}) w={got[j]!r} analytic={exp[j]!r} diff={d[j]:.3e} tol={tol:.1e}')
+                f'pixel (x={int(gx[j])}, y={int(gy[j])}) w={float(got[j])!r} analytic={float(exp[j])!r} diff={d[j]:.3e} tol={tol:.1e}')
         # oracle cross-check by supersampling on up to 12 partial pixels
         part = np.flatnonzero((exp > 1e-6) & (exp < 1 - 1e-6))
         if part.size:
@@ -446,7 +446,7 @@ def eval_mask(case, budget=2.5e6):
             jj = int(np.argmax(dd))
             if not dd[jj] <= bound:
                 bad('exact/pixel-weight-vs-supersampling',
-                    f'pixel (x={int(gx[pick][jj])}, y={int(gy[pick][jj])}) w={got[pick][jj]!r} supersampled={ss[jj]!r}')
+                    f'pixel (x={int(gx[pick][jj])}, y={int(gy[pick][jj])}) w={float(got[pick][jj])!r} supersampled={float(ss[jj])!r}')
         sw = float(W.sum())
         if not abs(sw - A) <= 1e-9 * abs(A):
             bad('exact/sum-vs-analytic-area', f'sum(w)={sw!r} area={A!r} rel={abs(sw - A) / A:.3e}')
@@ -468,14 +468,14 @@ def eval_mask(case, budget=2.5e6):
             j = int(np.argmax(d))
             if not d[j] <= 1e-15:
                 bad(f'count/dyadic-strict-{sp["kind"]}',
-                    f'pixel (x={int(gx[j])}, y={int(gy[j])}) w={got[j]!r} fraction of centres strictly inside={exp[j]!r} (s={seff})')
+                    f'pixel (x={int(gx[j])}, y={int(gy[j])}) w={float(got[j])!r} fraction of centres strictly inside={float(exp[j])!r} (s={seff})')
         else:
             lo, hi = count_band(sp, px, py, gx, gy, seff)
             viol = (got < lo - 1e-12) | (got > hi + 1e-12)
             if np.any(viol):
                 j = int(np.flatnonzero(viol)[0])
                 bad(f'count/{("rect-exact32" if method == "exact" else method)}-{sp["kind"]}',
-                    f'pixel (x={int(gx[j])}, y={int(gy[j])}) w={got[j]!r} counting oracle in [{lo[j]!r},{hi[j]!r}] (s={seff})')
+                    f'pixel (x={int(gx[j])}, y={int(gy[j])}) w={float(got[j])!r} counting oracle in [{float(lo[j])!r},{float(hi[j])!r}] (s={seff})')
         # values are multiples of 1/s^2
         q = got * seff * seff
         if not np.all(np.abs(q - np.round(q)) <= 1e-9):
